@@ -51,7 +51,15 @@ int main(int argc, char** argv) {
       bool e = ND_GUARD({ for (int k = 0; k < 15; k++) { for (int i = 0; i < m->nu; i++) t->ctrl[i] = rt.uniform(-1, 1); mj_step(m, t); } });
       size_t need = (size_t)t->maxuse_arena;
       mj_deleteData(t);
-      if (!e && need > 0) { m->narena = (mjtSize)((((size_t)(need * rt.uniform(0.9, 1.5))) + 63) & ~(size_t)63); tight = true; count("tight_arena_models"); mdesc += "[tight arena]"; }
+      if (!e && need > 0) {
+        mjtSize narena0 = m->narena;
+        m->narena = (mjtSize)((((size_t)(need * rt.uniform(0.9, 1.5))) + 63) & ~(size_t)63);
+        // the instance must at least be constructible (mj_makeData runs the position-dependent initialisation on the stack)
+        mjData* probe = nullptr;
+        bool e2 = ND_GUARD({ probe = mj_makeData(m); });
+        if (e2 || !probe) { m->narena = narena0; count("tight_arena_too_small_for_makeData"); }
+        else { mj_deleteData(probe); tight = true; count("tight_arena_models"); mdesc += "[tight arena]"; }
+      }
     }
     // ---- scenario: op list with twin points
     int nops = r.range(6, 40);
